@@ -205,8 +205,10 @@ func c09Program(r *RNG) GoProg {
 	sb.WriteString("func apply(f func(int) int, v int) int {\n\treturn f(v) + 1\n}\n\nfunc twice(v int) int {\n\treturn v * 2\n}\n\nfunc pair(a int, b int) (int, int) {\n\treturn b, a\n}\n\nfunc pass(a int, b int) (int, int) {\n\treturn pair(a, b)\n}\n\n")
 	nf := 2 + r.Intn(3)
 	type sig struct {
-		ps, rs []string
+		ps, rs   []string
+		variadic bool // the last parameter is a variadic tail of its type
 	}
+	sensitive := map[string]string{"int": "x/2", "byte": "x+200", "float64": "x/2", "string": "x+\"!\"", "bool": "!x"}
 	var sigs []sig
 	for i := 0; i < nf; i++ {
 		s := sig{}
@@ -216,23 +218,36 @@ func c09Program(r *RNG) GoProg {
 		for k := 0; k < r.Intn(4); k++ {
 			s.rs = append(s.rs, Pick(r, types))
 		}
+		s.variadic = len(s.ps) > 0 && r.Chance(0.4)
 		sigs = append(sigs, s)
 		var ps []string
 		for k, t := range s.ps {
+			if s.variadic && k == len(s.ps)-1 {
+				ps = append(ps, fmt.Sprintf("p%d ...%s", k, t))
+				continue
+			}
 			ps = append(ps, fmt.Sprintf("p%d %s", k, t))
 		}
 		fmt.Fprintf(&sb, "func g%d(%s) (%s) {\n", i, strings.Join(ps, ", "), strings.Join(s.rs, ", "))
 		var args []string
 		for k := range s.ps {
+			if s.variadic && k == len(s.ps)-1 {
+				args = append(args, fmt.Sprintf("len(p%d)", k))
+				continue
+			}
 			args = append(args, fmt.Sprintf("p%d", k))
 		}
 		fmt.Fprintf(&sb, "\tprintln(\"g%d\"%s)\n", i, prefixComma(args))
+		if s.variadic { // each packed element, used in a way that shows its type
+			k := len(s.ps) - 1
+			fmt.Fprintf(&sb, "\tfor _, x := range p%d {\n\t\tprintln(\"v\", x, %s)\n\t}\n", k, sensitive[s.ps[k]])
+		}
 		var rets []string
 		for _, t := range s.rs {
 			// prefer echoing a parameter of that type (conversion of constants at the call site shows up)
 			found := ""
 			for k, pt := range s.ps {
-				if pt == t && r.Bool() {
+				if pt == t && r.Bool() && !(s.variadic && k == len(s.ps)-1) {
 					found = fmt.Sprintf("p%d", k)
 				}
 			}
@@ -249,7 +264,19 @@ func c09Program(r *RNG) GoProg {
 	sb.WriteString("func main() {\n")
 	for i, s := range sigs {
 		var args []string
-		for _, t := range s.ps {
+		for k, t := range s.ps {
+			if s.variadic && k == len(s.ps)-1 {
+				var extra []string
+				for e := r.Intn(4); e > 0; e-- {
+					extra = append(extra, lit(t))
+				}
+				if r.Chance(0.3) {
+					args = append(args, fmt.Sprintf("[]%s{%s}...", t, strings.Join(extra, ", ")))
+				} else {
+					args = append(args, extra...)
+				}
+				continue
+			}
 			args = append(args, lit(t))
 		}
 		call := fmt.Sprintf("g%d(%s)", i, strings.Join(args, ", "))
